@@ -8,6 +8,7 @@
    quick_e.h); that part is observed by the sweep (bitwise comparison with scalar evaluation). *)
 From Coq Require Import ZArith List Reals.
 From Adept Require Import VecSplit VecSplitProofs FastexpProofs.
+From AdeptGen Require Import Gen_Vecguard.
 From AdeptGen Require Import Gen_Fastexp.
 Import ListNotations.
 
@@ -92,3 +93,18 @@ Example C05_example :
   stmt_counts 4 1 19 5 true (VBin (VArr 9 true) (VArr 14 true)) = (0, 0, 19)%Z /\
   vec_row (fun i => i * i)%nat 1 2 2 1 = [0; 1; 4; 9; 16; 25]%nat.
 Proof. vm_compute. repeat split. Qed.
+
+(* tie G for the guard of the vectorized reduction (reduce.h), TRANSLATED on every run: it compares the LAST extent (the
+   row length) with twice the packet size, which is the model's [eligible]; and that is what makes the scalar head loop -
+   which runs to the alignment offset without looking at the row length - stay inside the row, with room for a packet *)
+Local Open Scope Z_scope.
+Theorem C05_generated_reduction_guard : forall w n (contig : bool) off,
+  reduce_guard_dim = GLast /\ reduce_guard_factor = 2 /\
+  (0 < w -> 0 <= off < w -> eligible w n contig = andb (reduce_guard_factor * w <=? n) contig /\
+            (eligible w n contig = true -> off <= n /\ off + w <= n)).
+Proof.
+  intros w n contig off. split; [reflexivity|]. split; [reflexivity|].
+  intros Hw Ho. unfold eligible, reduce_guard_factor. split; [reflexivity|].
+  intros H. apply Bool.andb_true_iff in H. destruct H as [H _]. apply Z.leb_le in H. split; Lia.lia.
+Qed.
+Print Assumptions C05_generated_reduction_guard.
